@@ -36,3 +36,54 @@ MUTANTS = [
     T("c03-twin-or-instead-of-xor", ["C03"], TC, "scheduled_assertion = z3.Xor(\n            self.task_2._start >= self.task_1._end,", "scheduled_assertion = z3.Or(\n            self.task_2._start >= self.task_1._end,"),
     T("c03-twin-always-guarded", ["C03"], TC, "        if self.task.optional:\n            self.set_z3_assertions(\n                z3.Implies(self.task._scheduled, scheduled_assertion)\n            )\n        else:\n            self.set_z3_assertions(scheduled_assertion)\n\n\nclass TaskStartAfter", "        self.set_z3_assertions(\n            z3.Implies(self.task._scheduled, scheduled_assertion)\n        )\n\n\nclass TaskStartAfter"),
 ]
+
+TK = "task.py"
+SV = "solver.py"
+IND = "indicator.py"
+OBJ = "objective.py"
+MUTANTS += [
+    # ---- C01 ----------------------------------------------------------------------
+    B("c01-fixed-drop-start-ge-0", ["C01"], TK, "            self._end - self._start == self.duration,\n            self._start >= 0,\n", "            self._end - self._start == self.duration,\n"),
+    B("c01-fixed-duration-off", ["C01"], TK, "self._end - self._start == self.duration,", "self._end - self._start >= self.duration,"),
+    B("c01-variable-min-strict", ["C01", "C05"], TK, "self._duration >= self.min_duration,", "self._duration > self.min_duration,", expect=["R-TASK-OBLIG", "R-TASK-EXACT"]),
+    B("c01-variable-skip-max", ["C01"], TK, "        if self.max_duration is not None:\n            assertions.append(self._duration <= self.max_duration)\n", "        if self.max_duration is not None:\n            pass\n"),
+    B("c01-variable-allowed-partial", ["C01"], TK, "self._duration == duration for duration in self.allowed_durations\n", "self._duration >= duration for duration in self.allowed_durations\n"),
+    B("c01-variable-sum-wrong", ["C01"], TK, "self._start + self._duration == self._end,", "self._start + self._duration <= self._end,"),
+    B("c01-zero-drop-equal", ["C01"], TK, "            self._start == self._end,\n            self._start >= 0,", "            self._start <= self._end,\n            self._start >= 0,"),
+    B("c01-release-wrong-point", ["C01"], TK, "self._release_due_assertions.append(self._start >= self.release_date)", "self._release_due_assertions.append(self._end >= self.release_date)"),
+    B("c01-release-guard-wider", ["C01"], TK, "if self.release_date > 0:  # other wise redundant constraint", "if self.release_date > 1:  # other wise redundant constraint"),
+    B("c01-deadline-on-start", ["C01"], TK, "self._release_due_assertions.append(self._end <= self.due_date)", "self._release_due_assertions.append(self._start <= self.due_date)"),
+    B("c01-deadline-inverted-flag", ["C01"], TK, "            if self.due_date_is_deadline:\n", "            if not self.due_date_is_deadline:\n"),
+    B("c01-release-list-not-merged", ["C01"], TK, "        list_of_z3_assertions = list_of_z3_assertions + self._release_due_assertions\n", ""),
+    B("c01-horizon-on-start", ["C01"], SV, "self.append_z3_assertion(task._end <= self.problem._horizon)", "self.append_z3_assertion(task._start <= self.problem._horizon)"),
+    B("c01-horizon-only-mandatory", ["C01"], SV, "            self.append_z3_assertion(task._end <= self.problem._horizon)", "            if not task.optional:\n                self.append_z3_assertion(task._end <= self.problem._horizon)"),
+    B("c01-task-drain-filtered", ["C01"], SV, "        for task in self.problem.tasks.values():\n            self.append_z3_assertion(task.get_z3_assertions())", "        for task in self.problem.tasks.values():\n            if task.work_amount == 0:\n                self.append_z3_assertion(task.get_z3_assertions())"),
+    B("c01-problem-horizon-bound-dropped", ["C01"], "problem.py", "            self.append_z3_assertion(self._horizon <= self.horizon)", "            pass"),
+    B("c01-problem-assertions-not-drained", ["C01"], SV, "        for z3_assertion in self.problem.get_z3_assertions():\n            self.append_z3_assertion(z3_assertion)", "        for z3_assertion in self.problem.get_z3_assertions()[1:]:\n            self.append_z3_assertion(z3_assertion)"),
+    T("c01-twin-duration-flip", ["C01", "C05"], TK, "self._end - self._start == self.duration,", "self.duration == self._end - self._start,"),
+    T("c01-twin-variable-as-difference", ["C01", "C05"], TK, "self._start + self._duration == self._end,", "self._end - self._start == self._duration,"),
+    T("c01-twin-zero-as-difference", ["C01", "C05"], TK, "            self._start == self._end,\n            self._start >= 0,", "            self._end - self._start == 0,\n            0 <= self._start,"),
+    T("c01-twin-horizon-ge", ["C01"], SV, "self.append_z3_assertion(task._end <= self.problem._horizon)", "self.append_z3_assertion(self.problem._horizon >= task._end)"),
+    T("c01-twin-drain-one-loop", ["C01"], SV, "        for ress in self.problem.workers.values():\n            self.append_z3_assertion(ress.get_z3_assertions())\n\n        # process resource intervals\n        for ress in self.problem.workers.values():\n", "        for ress in self.problem.workers.values():\n            self.append_z3_assertion(ress.get_z3_assertions())\n"),
+    # ---- C06 ----------------------------------------------------------------------
+    B("c06-startat-guard-dropped", ["C06"], TC, "            self.set_z3_assertions(\n                z3.Implies(self.task._scheduled, scheduled_assertion)\n            )\n        else:\n            self.set_z3_assertions(scheduled_assertion)\n\n\nclass TaskStartAfter", "            self.set_z3_assertions(scheduled_assertion)\n        else:\n            self.set_z3_assertions(scheduled_assertion)\n\n\nclass TaskStartAfter"),
+    B("c06-precedence-one-flag", ["C06"], TC, "z3.And(self.task_before._scheduled, self.task_after._scheduled),\n                    scheduled_assertion,", "z3.And(self.task_before._scheduled),\n                    scheduled_assertion,"),
+    B("c06-startsynced-inverted-test", ["C06"], TC, "        if self.task_1.optional or self.task_2.optional:\n            # both tasks must be scheduled so that the startsynced", "        if self.task_1.optional and self.task_2.optional:\n            # both tasks must be scheduled so that the startsynced"),
+    B("c06-flowtime-drop-flag", ["C06"], OBJ, "task_ends.append(task._end * task._scheduled)", "task_ends.append(task._end)"),
+    B("c06-priorities-drop-flag", ["C06"], OBJ, "all_priorities.append(task._end * task.priority * task._scheduled)", "all_priorities.append(task._end * task.priority)"),
+    B("c06-tardiness-drop-flag", ["C06"], IND, "z3.And(t._end > t.due_date, t._scheduled),", "z3.And(t._end > t.due_date),"),
+    B("c06-earliness-drop-flag", ["C06"], IND, "z3.And(t.due_date - t._end >= 0, t._scheduled),", "z3.And(t.due_date - t._end >= 0),"),
+    B("c08-tasks-assigned-always", ["C08"], IND, "z3.If(start > -1, 1, 0)", "z3.If(True, 1, 0)"),
+    B("c06-release-outside-if", ["C06"], TK, "self._release_due_assertions.append(self._start >= self.release_date)", "self.append_z3_assertion(self._start >= self.release_date)"),
+    B("c06-zero-task-no-set-assertions", ["C06", "C01"], TK, "            self._start == self._end,\n            self._start >= 0,\n        ]\n\n        self.set_assertions(assertions)", "            self._start == self._end,\n            self._start >= 0,\n        ]\n\n        self.append_z3_list_of_assertions(assertions)"),
+    B("c06-unscheduled-end-not-moved", ["C06"], TK, "                not_scheduled_assertion = z3.And(\n                    self._start == point_in_past,  # to past\n                    self._end == point_in_past,  # to past\n                )", "                not_scheduled_assertion = z3.And(\n                    self._start == point_in_past,  # to past\n                )"),
+    B("c06-variable-unscheduled-duration-free", ["C06"], TK, "                    self._end == point_in_past,  # to past\n                    self._duration == 0,\n", "                    self._end == point_in_past,  # to past\n"),
+    B("c06-force-schedule-negated", ["C06"], TC, "self.set_z3_assertions(self.task._scheduled == self.to_be_scheduled)", "self.set_z3_assertions(self.task._scheduled != self.to_be_scheduled)"),
+    B("c06-condition-schedule-one-way", ["C06"], TC, "                self.task._scheduled == True,\n                self.task._scheduled == False,", "                self.task._scheduled == True,\n                True,"),
+    B("c06-dependency-wrong-task", ["C06"], TC, "self.set_z3_assertions(self.task_1._scheduled == self.task_2._scheduled)", "self.set_z3_assertions(self.task_1._scheduled == self.task_1._scheduled)"),
+    B("c06-force-n-pb-table", ["C06"], TC, 'problem_function = {"min": z3.PbGe, "max": z3.PbLe, "exact": z3.PbEq}\n\n        # first check that all tasks from the list_of_optional_tasks', 'problem_function = {"min": z3.PbGe, "max": z3.PbLe, "exact": z3.PbLe}\n\n        # first check that all tasks from the list_of_optional_tasks'),
+    B("c06-force-schedule-accepts-mandatory", ["C06", "C18"], TC, '        if not self.task.optional:\n            raise TypeError(f"Task {self.task.name} must be optional.")\n\n        self.set_z3_assertions(self.task._scheduled == self.to_be_scheduled)', '        self.set_z3_assertions(self.task._scheduled == self.to_be_scheduled)'),
+    B("c06-interrupted-min-duration-unguarded", ["C06"], "resource_constraint.py", "                    if task.optional:\n                        # the duration of a task that is not scheduled is 0\n                        min_duration_cond = z3.Implies(\n                            task._scheduled, min_duration_cond\n                        )\n", ""),
+    T("c06-twin-guard-as-or", ["C06", "C03"], TC, "z3.Implies(self.task._scheduled, scheduled_assertion)\n            )\n        else:\n            self.set_z3_assertions(scheduled_assertion)\n\n\nclass TaskStartAfter", "z3.Implies(z3.And(self.task._scheduled), scheduled_assertion)\n            )\n        else:\n            self.set_z3_assertions(scheduled_assertion)\n\n\nclass TaskStartAfter"),
+    T("c06-twin-flag-first-in-product", ["C06"], OBJ, "task_ends.append(task._end * task._scheduled)", "task_ends.append(task._scheduled * task._end)"),
+]
